@@ -100,6 +100,68 @@ theorem lookup_append_other {α : Type} (t : List (String × α)) (key k' : Stri
       simp only [List.cons_append, List.lookup, hk']
       exact ih
 
+/-! ### the entry points (`add_datum`, `add_datum_allow_uninit`, `add_datum_override`, `add_dynamic_datum`, `copy_datum`) -/
+
+/-- a typed entry point hands over exactly the table's answer for the type -/
+theorem C18_entry_typed (t : Table) (name key : String) (i : Truc.Info) (h : entryInfo t name (.typed key) = some i) :
+    ∃ e, lookupKey t key = some e ∧ i = ⟨name, e.name, e.size, e.align, Truc.UNSET, false⟩ := by
+  simp only [entryInfo] at h
+  cases hl : lookupKey t key with
+  | none => rw [hl] at h; simp at h
+  | some e => rw [hl] at h; simp only [Option.map_some, Option.some.injEq] at h; exact ⟨e, rfl, h.symm⟩
+
+theorem C18_entry_typed_uninit (t : Table) (name key : String) (i : Truc.Info) (h : entryInfo t name (.typedUninit key) = some i) :
+    ∃ e, lookupKey t key = some e ∧ i = ⟨name, e.name, e.size, e.align, Truc.UNSET, true⟩ := by
+  simp only [entryInfo] at h
+  cases hl : lookupKey t key with
+  | none => rw [hl] at h; simp at h
+  | some e => rw [hl] at h; simp only [Option.map_some, Option.some.injEq] at h; exact ⟨e, rfl, h.symm⟩
+
+/-- an override takes every specified item verbatim and every unspecified one from the table (never from anywhere else) -/
+theorem C18_entry_override (t : Table) (name key : String) (o : Override) (i : Truc.Info)
+    (h : entryInfo t name (.override key o) = some i) :
+    ∃ e, lookupKey t key = some e ∧
+      i.size = (match o.size with | some s => s | none => e.size) ∧
+      i.align = (match o.align with | some a => a | none => e.align) ∧
+      i.ty = (match o.typeName with | some n => n | none => e.name) ∧
+      i.uninit = (match o.uninit with | some u => u | none => false) ∧ i.name = name ∧ i.offset = Truc.UNSET := by
+  simp only [entryInfo] at h
+  cases hl : lookupKey t key with
+  | none => rw [hl] at h; simp at h
+  | some e =>
+    rw [hl] at h
+    simp only [Option.map_some, Option.some.injEq] at h
+    subst h
+    refine ⟨e, rfl, ?_, ?_, ?_, ?_, rfl, rfl⟩ <;> (simp only []; first | (cases o.size <;> rfl) | (cases o.align <;> rfl) | (cases o.typeName <;> rfl) | (cases o.uninit <;> rfl))
+
+/-- the dynamic entry point: the table's answer for the normalised spelling, including its uninit flag -/
+theorem C18_entry_dynamic (t : Table) (name spelling : String) (i : Truc.Info) (h : entryInfo t name (.dynamic spelling) = some i) :
+    ∃ e, lookup t spelling = some e ∧ i = ⟨name, e.name, e.size, e.align, Truc.UNSET, e.uninit⟩ := by
+  simp only [entryInfo] at h
+  cases hl : lookup t spelling with
+  | none => rw [hl] at h; simp at h
+  | some e => rw [hl] at h; simp only [Option.map_some, Option.some.injEq] at h; exact ⟨e, rfl, h.symm⟩
+
+/-- a type the table does not contain is refused by every entry point that consults the resolver -/
+theorem C18_entry_unregistered (t : Table) (name key : String) (o : Override) (h : lookupKey t key = none) :
+    entryInfo t name (.typed key) = none ∧ entryInfo t name (.typedUninit key) = none ∧
+    entryInfo t name (.override key o) = none := by
+  simp [entryInfo, h]
+
+/-- a copied datum keeps its description (the offset is reset) -/
+theorem C18_entry_copy (t : Table) (name : String) (src : Truc.Info) :
+    entryInfo t name (.copy src) = some { src with offset := Truc.UNSET } := rfl
+
+/-- entry point, then the generic builder: what ends up recorded is what the entry point handed over -/
+theorem C18_entry_recorded (t : Table) (name : String) (e : EntryPoint) (i : Truc.Info) (s : Truc.BState) (id : Nat)
+    (he : entryInfo t name e = some i) (h : (s.addDatum i).2 = .ok id) :
+    Truc.info (s.addDatum i).1.defs id = i := Truc.C18_records_answer s i id h
+
+example : (do
+    let t ← register [] "usize" ⟨"usize", 4, 4, true⟩
+    entryInfo t "f" (.override "usize" { align := some 2 })) = some ⟨"f", "usize", 4, 2, Truc.UNSET, false⟩ ∧
+    entryInfo [] "f" (.typed "usize") = none := by decide +kernel
+
 /-- a table answers exactly what was registered … -/
 theorem C18_table_registered (t t' : Table) (key : String) (e : Entry) (h : register t key e = some t') :
     lookupKey t' key = some e := by
